@@ -71,6 +71,7 @@ type conc struct {
 	retHeld                                  map[*FuncInfo]uint8
 	pipeHeld                                 map[uint8]string // held sets at recovery.Fetch calls inside goroutines that feed a pipe
 	curRoot                                  string
+	reentrant                                map[string]string // site -> mutex acquired while already held
 	depth                                    int
 }
 
@@ -100,6 +101,15 @@ func (k *conc) lockOf(info *types.Info, x ast.Expr, ops int) (lockID, bool) {
 }
 
 func (k *conc) addEdges(held uint8, to lockID, where string) {
+	// sync.Mutex is not re-entrant: acquiring a mutex that is definitely held on this path blocks forever
+	if held&(1<<to) != 0 && to != lkDiskAny {
+		if k.reentrant == nil {
+			k.reentrant = map[string]string{}
+		}
+		if _, ok := k.reentrant[where]; !ok {
+			k.reentrant[where] = lockNames[to] + " (entry point " + k.curRoot + ")"
+		}
+	}
 	for i := lockID(0); i < nLocks; i++ {
 		if held&(1<<i) != 0 && i != to {
 			e := [2]lockID{i, to}
@@ -651,6 +661,20 @@ func ruleC11Concurrency(c *Ctx) {
 	}
 	for _, e := range es {
 		c.note("lock-order edge %s -> %s (%s)", lockNames[e[0]], lockNames[e[1]], k.edges[e])
+	}
+	// self-deadlocks: a mutex acquired on a path on which it is already held
+	{
+		var sites []string
+		for w := range k.reentrant {
+			sites = append(sites, w)
+		}
+		sort.Strings(sites)
+		for i, w := range sites {
+			c.bad(ruleLO, nil, fmt.Sprintf("re-entrant acquisition#%d %s", i+1, strings.Split(k.reentrant[w], " ")[0]), token.NoPos, "%s is acquired at %s on a call path on which it is already held: %s; sync.Mutex is not re-entrant, so the call never returns and every other caller of the instance blocks behind it", strings.Split(k.reentrant[w], " ")[0], w, k.reentrant[w])
+		}
+		if len(sites) == 0 {
+			c.ok(ruleLO, nil, "no re-entrant acquisition", token.NoPos, true, "no mutex is acquired on a path on which it is definitely held")
+		}
 	}
 	// one obligation per distinct cycle signature (by the set of locks), so that a new cycle is a new violation
 	seen := map[string]bool{}
